@@ -146,6 +146,20 @@ func (f *FS) hook(label, obj string, write bool, lo, hi int64) {
 	}
 }
 
+// OrphanHandles returns the number of open handles on files that no path names any more (unlinked
+// while open and never closed: a descriptor/mapping leak).
+func (f *FS) OrphanHandles() int {
+	linked := 0
+	seen := map[*Inode]bool{}
+	for _, in := range f.files {
+		if !seen[in] {
+			seen[in] = true
+			linked += in.Handles
+		}
+	}
+	return f.Stats.OpenHandles - linked
+}
+
 // Mutations returns the number of mutating calls made so far (fault-injection bookkeeping).
 func (f *FS) Mutations() int { return f.mutations }
 
